@@ -47,6 +47,27 @@ func (a *An) smpFinalComparisons(rule string) {
 			}
 		}
 	}
+	// the values that carry the secret: Qa = g1^r4 · g2^x and Qb = g1^r4 · g2^y, with the same plain exponentiation as
+	// the proofs that accompany them (a differently encoded exponent makes an honest run look cheated)
+	if f := a.MustFn("generateSMP3Message"); f != nil {
+		for _, st := range a.DirectStoresTo(a.MustField("smp3Message", "qa")) {
+			if a.C.within(st, f) {
+				a.TermIs(rule, "generateSMP3Message|qa", "Qa = g1^r4 * g2^x mod p", st, st.Val, "mulMod(modExpP(global:g1, smp3State.r4), modExpP(modExpP(smp2Message.g2b, smp1State.a2), smp3State.x), global:p)")
+			}
+		}
+	}
+	if f := a.MustFn("generateSMP2Message"); f != nil {
+		for _, st := range a.DirectStoresTo(a.MustField("smp2State", "qb")) {
+			if a.C.within(st, f) {
+				a.TermIs(rule, "generateSMP2Message|qb", "Qb = g1^r4 * g2^y mod p", st, st.Val, "mulMod(modExpP(global:g1, smp2State.r4), modExpP(smp2State.g2, smp2State.y), global:p)")
+			}
+		}
+		for _, st := range a.DirectStoresTo(a.MustField("smp2State", "pb")) {
+			if a.C.within(st, f) {
+				a.TermIs(rule, "generateSMP2Message|pb", "Pb = g3^r4", st, st.Val, "modExpP(smp2State.g3, smp2State.r4)")
+			}
+		}
+	}
 	for name, want := range map[string]string{"eq": "((*math/big.Int).Cmp($l, $r) == 0)"} {
 		if fn := a.MustFn(name); fn != nil {
 			for _, r := range a.returnsOf(fn) {
